@@ -453,17 +453,32 @@ void flexend (int exit_status)
 	if (++called_before)
 		FLEX_EXIT (exit_status);
 
-	if (ctrl.yyclass != NULL && !ctrl.C_plus_plus)
-		flexerror (_("%option yyclass only meaningful for C++ scanners"));
+	/* Errors found here must not go through flexerror()/lerr(): those
+	 * re-enter flexend(), which then exits at once and leaves the
+	 * output file behind.  Report, and let the clean-up below run.
+	 */
+	if (ctrl.yyclass != NULL && !ctrl.C_plus_plus) {
+		fprintf (stderr, "%s: %s\n", program_name,
+			 _("%option yyclass only meaningful for C++ scanners"));
+		exit_status = 1;
+	}
 
 	if (env.skelfile != NULL) {
-		if (ferror (env.skelfile))
-			lerr (_("input error reading skeleton file %s"),
-				env.skelname);
+		if (ferror (env.skelfile)) {
+			fprintf (stderr, "%s: ", program_name);
+			fprintf (stderr, _("input error reading skeleton file %s"),
+				 env.skelname);
+			fputc ('\n', stderr);
+			exit_status = 1;
+		}
 
-		else if (fclose (env.skelfile))
-			lerr (_("error closing skeleton file %s"),
-				env.skelname);
+		else if (fclose (env.skelfile)) {
+			fprintf (stderr, "%s: ", program_name);
+			fprintf (stderr, _("error closing skeleton file %s"),
+				 env.skelname);
+			fputc ('\n', stderr);
+			exit_status = 1;
+		}
 	}
 
 	if (exit_status != 0 && outfile_created) {
